@@ -61,9 +61,9 @@ def spec(name: str, opts: dict):
         if vec:
             vals = [0.75, -1.5, 2.25][:d]
             return dict(arrays=[("vector_field", "v", "out")], scalars={"fixed_vals": vals},
-                        ref=lambda A, S, aux: {"vector_field": (np.stack([np.full(A["vector_field"].shape[1:], v) for v in vals]), np.ones(A["vector_field"].shape, bool))})
+                        ref=lambda A, S, aux: {"vector_field": (np.stack([np.full(A["vector_field"].shape[1:], v) for v in S["fixed_vals"]]), np.ones(A["vector_field"].shape, bool))})
         return dict(arrays=[("field", "s", "out")], scalars={"fixed_val": -1.25},
-                    ref=lambda A, S, aux: {"field": (np.full(A["field"].shape, -1.25), np.ones(A["field"].shape, bool))})
+                    ref=lambda A, S, aux: {"field": (np.full(A["field"].shape, S["fixed_val"]), np.ones(A["field"].shape, bool))})
     if base == "elementwise_copy":
         return dict(arrays=[("field", "s", "out"), ("rhs_field", "s", "in")], scalars={}, ref=lambda A, S, aux: {"field": (A["rhs_field"], np.ones(A["field"].shape, bool))})
     if base == "elementwise_complex_product":
@@ -74,17 +74,17 @@ def spec(name: str, opts: dict):
         if vec:
             vals = [0.5, -2.0, 1.5][:d]
             return dict(arrays=[("vector_field", "v", "inout")], scalars={"fixed_vals": vals},
-                        ref=lambda A, S, aux: {"vector_field": (np.stack([np.full(A["vector_field"].shape[1:], v) for v in vals]), _vec(ring(A["vector_field"].shape[1:], w), d))})
-        return dict(arrays=[("field", "s", "inout")], scalars={"fixed_val": 3.5}, ref=lambda A, S, aux: {"field": (np.full(A["field"].shape, 3.5), ring(A["field"].shape, w))})
+                        ref=lambda A, S, aux: {"vector_field": (np.stack([np.full(A["vector_field"].shape[1:], v) for v in S["fixed_vals"]]), _vec(ring(A["vector_field"].shape[1:], w), d))})
+        return dict(arrays=[("field", "s", "inout")], scalars={"fixed_val": 3.5}, ref=lambda A, S, aux: {"field": (np.full(A["field"].shape, S["fixed_val"]), ring(A["field"].shape, w))})
     if base == "add_fixed_val":
         if vec:
             vals = [0.75, -1.5, 2.25][:d]
             return dict(arrays=[("sum_field", "v", "out"), ("vector_field", "v", "in")], scalars={"fixed_vals": vals},
-                        ref=lambda A, S, aux: {"sum_field": (A["vector_field"] + np.array(vals).reshape((d,) + (1,) * d), np.ones(A["vector_field"].shape, bool))})
-        return dict(arrays=[("sum_field", "s", "out"), ("field", "s", "in")], scalars={"fixed_val": 0.625}, ref=lambda A, S, aux: {"sum_field": (A["field"] + 0.625, np.ones(A["field"].shape, bool))})
+                        ref=lambda A, S, aux: {"sum_field": (A["vector_field"] + np.array(S["fixed_vals"], dtype=np.float64).reshape((d,) + (1,) * d), np.ones(A["vector_field"].shape, bool))})
+        return dict(arrays=[("sum_field", "s", "out"), ("field", "s", "in")], scalars={"fixed_val": 0.625}, ref=lambda A, S, aux: {"sum_field": (A["field"] + S["fixed_val"], np.ones(A["field"].shape, bool))})
     if base == "elementwise_saxpby":
         return dict(arrays=[("sum_field", K, "out"), ("field_1", K, "in"), ("field_2", K, "in")], scalars={"field_1_prefac": 0.75, "field_2_prefac": -1.5},
-                    ref=lambda A, S, aux: {"sum_field": (0.75 * A["field_1"] - 1.5 * A["field_2"], np.ones(A["field_1"].shape, bool))})
+                    ref=lambda A, S, aux: {"sum_field": (S["field_1_prefac"] * A["field_1"] + S["field_2_prefac"] * A["field_2"], np.ones(A["field_1"].shape, bool))})
     if base == "advection_flux_conservative_eno3":
         def ref(A, S, aux):
             tot = sum(fsr.eno3_flux_divergence(A["field"], A["velocity"][k], d - 1 - k) for k in range(d))
@@ -111,21 +111,23 @@ def spec(name: str, opts: dict):
         return dict(arrays=arrays, scalars={"prefactor": 0.625}, ref=ref)
     if base in ("brinkmann_penalise", "brinkmann_penalise_vs_fixed_val"):
         fixed = "fixed_val" in base
-        lam = 2.5
+        lam0 = 2.5
         if vec:
             pv = [0.5, -1.25, 2.0][:d]
             def ref(A, S, aux):
                 chi = A["char_field"]
-                tgt = np.array(pv).reshape((d,) + (1,) * d) if fixed else A["penalty_vector_field"]
+                tgt = np.array(S["penalty_val"], dtype=np.float64).reshape((d,) + (1,) * d) if fixed else A["penalty_vector_field"]
+                lam = S["penalty_factor"]
                 return {"penalised_vector_field": ((A["vector_field"] + lam * chi * tgt) / (1 + lam * chi), np.ones(A["vector_field"].shape, bool))}
             arrays = [("penalised_vector_field", "v", "out"), ("char_field", "s+", "in"), ("vector_field", "v", "in")] + ([] if fixed else [("penalty_vector_field", "v", "in")])
-            return dict(arrays=arrays, scalars={"penalty_factor": lam, **({"penalty_val": pv} if fixed else {})}, ref=ref)
+            return dict(arrays=arrays, scalars={"penalty_factor": lam0, **({"penalty_val": pv} if fixed else {})}, ref=ref)
         def ref(A, S, aux):
             chi = A["char_field"]
-            tgt = 0.75 if fixed else A["penalty_field"]
+            tgt = S["penalty_val"] if fixed else A["penalty_field"]
+            lam = S["penalty_factor"]
             return {"penalised_field": ((A["field"] + lam * chi * tgt) / (1 + lam * chi), np.ones(chi.shape, bool))}
         arrays = [("penalised_field", "s", "out"), ("field", "s", "in"), ("char_field", "s+", "in")] + ([] if fixed else [("penalty_field", "s", "in")])
-        return dict(arrays=arrays, scalars={"penalty_factor": lam, **({"penalty_val": 0.75} if fixed else {})}, ref=ref)
+        return dict(arrays=arrays, scalars={"penalty_factor": lam0, **({"penalty_val": 0.75} if fixed else {})}, ref=ref)
     if base == "advection_timestep_euler_forward_conservative_eno3":
         def one(w, vel, c):
             return fsr.advect(w, vel, c)
@@ -242,3 +244,29 @@ def spec(name: str, opts: dict):
             return {key: (out, np.ones(f.shape, bool))}
         return dict(arrays=[("vector_field" if vec else "scalar_field", K, "inout")], scalars={}, ref=ref, needs_shape=True, closed_over=["filter_flux_buffer", "field_buffer"])
     raise KeyError(f"no kernel spec for {name}")
+
+
+SCALAR_VARIANTS = ["dyadic:float", "generic:float", "generic:float64", "generic:float32", "generic:real_t"]
+
+
+def scalar_variant(scalars: dict, variant: str, real_t):
+    """Scalar-argument alphabet: the VALUE (dyadic as listed above, or 'generic' = not representable in
+    single precision) and the TYPE of the object the caller passes (Python float, numpy double, numpy
+    single, the kernel's own precision).  Returns (arguments to pass, their exact float64 meaning)."""
+    value, typ = variant.split(":")
+    conv = {"float": float, "float64": np.float64, "float32": np.float32, "real_t": real_t}[typ]
+    factors = (1.1, 0.9, 1.3)
+
+    def one(v, k=0):
+        v = float(v) * (factors[k] if value == "generic" else 1.0)
+        obj = conv(v)
+        return obj, float(obj)
+
+    passed, meaning = {}, {}
+    for name, v in scalars.items():
+        if isinstance(v, (list, tuple)):
+            pairs = [one(x, k) for k, x in enumerate(v)]
+            passed[name], meaning[name] = [p[0] for p in pairs], [p[1] for p in pairs]
+        else:
+            passed[name], meaning[name] = one(v)
+    return passed, meaning
